@@ -18,11 +18,11 @@ INFO = {
     'rule': ('cases = (listing file or truncated copy, sequence of navigation actions): actions first, last, next, prev, index=i for i in [-N, N-1], '
              'time=t (each exact time, between every pair of times on both sides of the midpoint, before the first, after the last), step=s '
              'likewise, history(fixed selection). All sequences up to the stated length, plus random sequences of length 5..60. Truncated copies '
-             '(cut before the k-th result set) give 1..N times. Distinct = distinct (file, sequence); non-trivial = the index changes at least twice.'),
+             '(cut before the k-th result set) give 1..N times; blanked copies (listings whose tables print incomplete rows: all numbers re-drawn, trailing fields of complete rows blanked in every other result set) give rows with a blank field at one time and a number there at another. Distinct = distinct (file, sequence); non-trivial = the index changes at least twice.'),
     'require': {
-        'quick': {'counters': {'actions_checked': 20000, 'sequences': 4000, 'files': 15, 'fresh_snapshots': 40, 'truncated_copies': 5},
+        'quick': {'counters': {'actions_checked': 20000, 'sequences': 4000, 'files': 15, 'fresh_snapshots': 40, 'truncated_copies': 5, 'blanked_copies': 2, 'rows_blank_at_one_time_printed_at_another': 4},
                   'seen': {'action_kinds': 8, 'simulators': 6}, 'nontrivial': 2000},
-        'thorough': {'counters': {'actions_checked': 1000000, 'sequences': 350000, 'files': 20, 'fresh_snapshots': 100, 'truncated_copies': 20},
+        'thorough': {'counters': {'actions_checked': 1000000, 'sequences': 350000, 'files': 20, 'fresh_snapshots': 100, 'truncated_copies': 20, 'blanked_copies': 2, 'rows_blank_at_one_time_printed_at_another': 4},
                      'seen': {'action_kinds': 8, 'simulators': 6}, 'nontrivial': 250000},
     },
     'exhaustive': {'quick': True, 'thorough': True},
@@ -301,6 +301,61 @@ def truncated_copies(ctx, path, label, few=False):
     return out
 
 
+def blanked_copy(ctx, path, label):
+    """A copy of a multi-time listing whose tables print incomplete rows (TOUGH2 generation tables leave
+    the trailing fields of some rows blank): every printed number is replaced by fresh digits (zeros become
+    non-zero), then in every other result set the trailing fields of complete rows are blanked out, so that
+    the same row has a blank field at one time and a non-zero number there at another.  Own scan of the text
+    (the listing oracle of C05); returns None where no table has such rows."""
+    import random
+    from vf.props import c05
+    from vf.oracle import listing_ref as LR
+    ref = LR.parse_listing(path)
+    if len(ref) < 2:
+        return None
+    lines = c05.read_lines(path)
+    short = {}
+    for res in ref:
+        for t in res['tables']:
+            ns = set(len(r[2]) for r in t.rows)
+            if len(ns) > 1:
+                short[t.name] = min(min(ns), short.get(t.name, 10 ** 6))
+    if not short:
+        return None
+    c05.make_variant(ctx, random.Random(c05.variant_seed(ctx, label, 'digits', 7)), lines, ref, 'digits', 1.0)
+    nblank = 0
+    for ri, res in enumerate(ref):
+        for t in res['tables']:
+            if t.name not in short:
+                continue
+            nmin = short[t.name]
+            for j, r in enumerate(t.rows):
+                keys, index, cells, ln = r
+                if len(cells) > nmin and (ri + j) % 2 == 0:
+                    a = cells[nmin][1]
+                    b = cells[-1][2]
+                    # the blank run starts after the last kept number
+                    lines[ln] = lines[ln][:a] + ' ' * (b - a) + lines[ln][b:]
+                    del cells[nmin:]
+                    nblank += 1
+    if nblank == 0:
+        return None
+    # what the copy holds, from the text: rows with a blank trailing field at one time and a non-zero number there at another
+    seen = {}
+    for ri, res in enumerate(ref):
+        for t in res['tables']:
+            if t.name in short:
+                for keys, index, cells, ln in t.rows:
+                    seen.setdefault((t.name, tuple(keys)), []).append(len(cells))
+    nvary = sum(1 for v in seen.values() if len(set(v)) > 1)
+    if nvary == 0:
+        return None
+    fn = c05.write_variant(ctx, path, lines, 'blanked')
+    c05.selfcheck(ctx, fn, ref)
+    ctx.count('rows_blank_at_one_time_printed_at_another', nvary)
+    return fn
+
+
 def run_file(ctx, path, label, spec, expect_times=None):
     rng = ctx.rng
     with ctx.guard({'file': label}, where='open') as g:
@@ -378,13 +433,20 @@ def run_shard(ctx, spec):
             for fn, label, k in copies:
                 ctx.count('truncated_copies')
                 run_file(ctx, fn, label, dict(spec, depth=2 if spec['depth'] else None, random=20), expect_times=k)
+        with ctx.guard({'file': rel + '[blanked trailing fields]'}, where='blanked-copy') as g:
+            fn = blanked_copy(ctx, path, rel)
+        if g.raised is None and fn is not None:
+            ctx.count('blanked_copies')
+            run_file(ctx, fn, rel + '[blanked trailing fields]', dict(spec, depth=2 if spec['depth'] else None, random=20))
 
 
 def replay(ctx, case):
     label = case['file']
     rel = label.split('[')[0]
     path = os.path.join(REPO, rel)
-    if '[' in label:
+    if '[blanked' in label:
+        path = blanked_copy(ctx, path, rel)
+    elif '[' in label:
         k = int(label.split('first ')[1].split()[0])
         copies = dict((kk, fn) for fn, lab, kk in truncated_copies(ctx, path, rel))
         path = copies[k]
